@@ -15,7 +15,7 @@ PROPERTY_RULES = {
     "C10": ["r_c2", "r_c1", "r_e1", "r_c5", "r_c7", "r_c8", "r_c4", "r_c3", "r_c9"],
     "C11": ["r_c2", "r_c1", "r_a6", "r_c5", "r_c4", "r_e1", "r_a8", "r_a9", "r_a16", "r_a21", "r_c9", "r_a23", "r_c8", "r_u3"],
     "C12": ["r_c4", "r_e1", "r_c9"],
-    "C13": ["r_e4", "r_a6", "r_c3", "r_e1", "r_a13", "r_a16", "r_c7", "r_a8", "r_a20", "r_c8"],
+    "C13": ["r_e4", "r_a6", "r_c3", "r_e1", "r_a13", "r_a16", "r_c7", "r_a8", "r_a20", "r_c8; slice_ref answers without slicing only for the empty subset (A13)"],
     "C14": ["r_d1"],
     "C15": ["r_d2", "r_d3"],
     "C16": ["r_e1", "r_e2", "r_e5", "r_b1", "r_o3", "r_a2", "r_a9", "r_e6", "r_e7"],
@@ -50,7 +50,7 @@ CLAUSES = {
            "content-preserving conversions, visit_seq keeps every element in order",
     "C01": "no API of Bytes can write its bytes; every place where the crate moves bytes or re-bases a view does it in the only correct order and with the "
            "right length/offset (copy-back before shrinking, offset re-applied, bytes before pointer); writes into shared storage are dominated by a "
-           "uniqueness test; no handle is disposed early or twice; slices/conversions rebuild (ptr, len) / Vec lengths from the view's own extent; every handle -> Vec<u8> conversion returns a Vec of exactly the handle's length on every path (A19); the length of a BytesMut / slice cursor grows only over written bytes (A16); the Vec kept in a control block is never relied upon for its length (A9-iv)",
+           "uniqueness test; no handle is disposed early or twice; slices/conversions rebuild (ptr, len) / Vec lengths from the view's own extent; every handle -> Vec<u8> conversion returns a Vec of exactly the handle's length on every path (A19); the length of a BytesMut / slice cursor grows only over written bytes (A16); the Vec kept in a control block is never relied upon for its length (A9-iv); a char is narrowed to a byte only where it is known ASCII (U3)",
     "C04": "every write to BytesMut.{ptr,len,cap} is justified (bounded by the allocation, paired with its companions, bytes moved before the pointer, "
            "non-overlap guard before copy_nonoverlapping); split halves use one cut operand; merge needs all four adjacency conjuncts; Clone never shares; "
            "the reservation helper returns false only on paths without any state write and true only through a justified cap write; request arithmetic cannot wrap; "
@@ -83,7 +83,7 @@ CLAUSES = {
            "refcount overflow aborts; the length of a BytesMut / slice cursor grows only over bytes written just before (every safe set_len / advance_mut is a shrink or is dominated by a covering write at the first unexposed byte, A16); the tagged word in BytesMut.data keeps its bit fields in range and encodes vec position 0 whenever the pointer is the start of its Vec (A17, upper-bound analysis with control-block fields bounded at every constructor)",
     "C13": "in every safe &mut-self method with integer/range/slice arguments no state write can reach an argument-dependent panic (panic strictly before "
            "mutation); argument checks dominate the unchecked operations they protect in release builds; overflowing requests cannot wrap silently; "
-           "Bytes::slice produces every result (also the empty one) only after both range checks; an over-long truncate / resize argument cannot make unwritten bytes visible (A16); every store to Bytes.len / Bytes.ptr narrows the view on every path (A20: offset + len' <= len entailed from the path's release-mode conditions); a panic for a short buffer is raised only where available < requested is known (C8)",
+           "Bytes::slice produces every result (also the empty one) only after both range checks; an over-long truncate / resize argument cannot make unwritten bytes visible (A16); every store to Bytes.len / Bytes.ptr narrows the view on every path (A20: offset + len' <= len entailed from the path's release-mode conditions); a panic for a short buffer is raised only where available < requested is known (C8); slice_ref answers without slicing only for the empty subset (A13)",
     "C09": "Chain touches its second half only on paths where the first is exhausted or fully accounted for (incl. chunks_vectored); "
            "Take truncates by min(inner, limit) and pairs every inner advance with limit -= same operand; the five leaf Bufs, the inherited defaults "
            "and IntoIter: remaining()/chunk() cut from one value, advance moves the cursor by exactly its argument, VecDeque lists front before back, "
@@ -102,11 +102,11 @@ CLAUSES = {
            "error fields and cursor movement use the value width; no profile-dependent arithmetic on caller-controlled integers in the decoders; "
            "the chunk-gathering slow path loops until the destination is full; the leaf cursors' remaining()/chunk() agree; a try_* reader that returns Err has consumed nothing on any path (own Err, `?` residual, fallible tail call, io::Read::read_exact & co. which consume before failing: C8); every TryGetError { requested, available } - returned or handed to panic_advance - is built under available < requested, so a request the buffer can serve (zero width at the end, an exact fit) is never refused (C8); what from_*_bytes / from_bits decoded is handed out as it is - arithmetic on it is accepted only if, evaluated for every width 0..=8, it selects exactly the bytes read (C2)",
     "C11": "every typed putter uses the conversion/type/byte order/width its name promises (be = tail, le = head slicing of the 8-byte encoding); copy loops "
-           "move min(real lengths) and stop only on exhaustion; BytesMut's growth path moves the bytes in the right direction before re-basing; advance_mut after a specialised write exposes exactly bytes that a dominating write at the write cursor covered (A16); what a putter encodes is its argument through bit-preserving conversions only (C2 value flow); no raw pointer into the buffer survives a call that may move it (A21); bounds taken from a cursor are current where they are used (C9); a put that fits exactly is not refused: the TryGetError given to panic_advance is built under available < requested (C8)",
+           "move min(real lengths) and stop only on exhaustion; BytesMut's growth path moves the bytes in the right direction before re-basing; advance_mut after a specialised write exposes exactly bytes that a dominating write at the write cursor covered (A16); what a putter encodes is its argument through bit-preserving conversions only (C2 value flow); no raw pointer into the buffer survives a call that may move it (A21); bounds taken from a cursor are current where they are used (C9); a put that fits exactly is not refused: the TryGetError given to panic_advance is built under available < requested (C8); a char is narrowed to a byte only where it is known ASCII (U3: `write_char` fast paths)",
     "C16": "no profile-dependent arithmetic (overflow/shift asserts, explicit wrapping ops) on caller-controlled integers anywhere in the crate; the "
            "even/odd promotable vtables are slot-wise isomorphic modulo unmasking, the parity dispatch is consistent and vtable identity tests cover both parities; the verdict tables of every rule of the framework (not only the rules listed here) agree between the analysed "
            "configurations - default / no_std / portable-atomic / release-like in the quick tier, K1..K6 in the thorough tier (E3; only the differences are reported here); the conditions of debug_assert! are effect-free, so builds with and without debug assertions run the same state changes (E5); "
-           "address differences are (pointer into a buffer) - (start of that buffer) or guarded, so no subtraction panics in debug and wraps in release (E6)",
+           "address differences are (pointer into a buffer) - (start of that buffer) or guarded, so no subtraction panics in debug and wraps in release (E6); every precondition an unsafe helper states under debug_assert! is established by its safe callers in release code, and debug-only assertions are classified as entailed / precondition / literal parameter set / representation fact (E7; the last kind is labelled, not decided)",
     "C14": "all comparison/hash/borrow impls delegate to the [u8] impl over content-preserving views with operands in the right order",
 }
 
@@ -138,7 +138,7 @@ TECHNIQUE = {
     "C14": "MIR orientation/delegation analysis over rustc-resolved callees (custom rustc_private driver)",
     "C10": "name-grammar vs decode-signature agreement over MIR callees, sibling agreement get/try_get, taint+guard analysis of overflow asserts; path rule: every Err path of a try_* reader precedes all consuming calls, every Ok path consumes exactly once",
     "C11": "name-grammar vs encode-signature agreement over MIR callees, value-flow of the encoded operand, taint+guard analysis of overflow asserts; forward gen/kill dataflows for raw-pointer freshness (A21) and cursor-observation freshness (C9)",
-    "C16": "taint + dominating-guard analysis of every MIR overflow/shift assert (profile-dependent arithmetic); effect analysis of debug-only regions (E5); differential: verdict tables of all rules compared between the release-like, no_std, portable-atomic and default configurations in the quick tier (K1..K6 thorough); buffer-start provenance of address subtractions resolved through helper callers (E6)",
+    "C16": "taint + dominating-guard analysis of every MIR overflow/shift assert (profile-dependent arithmetic); effect analysis of debug-only regions (E5); differential: verdict tables of all rules compared between the release-like, no_std, portable-atomic and default configurations in the quick tier (K1..K6 thorough); buffer-start provenance of address subtractions resolved through helper callers (E6); entailment of debug-only assertions from the release-mode conditions in the linear domain and re-use of the caller-side obligation analysis (E7)",
 }
 LEVEL_NOTE["C17"] = ("trusted: slices returned by safe user code have their real length; BufMut is an unsafe trait (its implementors are trusted). NOT decided: "
                       "leak-freedom when user code panics at arbitrary points (unwinding paths are analysed for from_owner only).")
